@@ -8,6 +8,7 @@ MEMBERS = ('_state', '_prevState', '_inComment', '_unicodeCount', '_ldp', '_unic
 STEP_RULES = [
     ifdef_rule('ASL_FAST_JSON', False),
     (r'\bcontinue;', 'return;', None), (r'\bs--;', 'g_pushback++;', None),
+    (r'(?<![\w.>)\]])\*\s*s\b(?!\s*[-+]{2})', '*VF_PEEK(s)', None),
     (r'_context\.top\(\)', 'CTX_TOP()', None), (r'_context\.pop\(\);', 'CTX_POP();', None), (r'_context << (\w+);', r'CTX_PUSH(\1);', None),
     # decimal-point patch loop on the buffer (locale): replaced by a stub, must fire twice (NUMBER_EV and NUMBER)
     (r'for\s*\(char\* p = _buffer\.data\(\); \*p; p\+\+\)\s*if \(\*p == \'\.\'\)\s*\{\s*\*p = _ldp;\s*break;\s*\}', 'BUF_FIX_DP();', None),
@@ -38,6 +39,9 @@ PARSER_C = r'''
 #include "vf_xdl.h"
 Context g_c0, g_c1, g_c2; int g_cd, g_pend; char g_buf[VF_BUFCAP]; int g_buflen;
 int g_lists_pushed, g_lists_popped, g_props_pushed, g_values, g_pushback, g_int_digits, g_string_done, g_key_done;
+/* the characters after the current one: they may still be in a later chunk, so a step must neither read them nor move past them (s is outside every assigns clause) */
+char g_rest[4]; const char* s = g_rest;
+#define VF_PEEK(p) (__CPROVER_assert(0, "the step does not look at later characters (they may be in the next chunk)"), (p))
 typedef struct XdlParser { State _state, _prevState; bool _inComment; int _unicodeCount; char _ldp; char _unicode[4]; wchar_t _wchar; } XdlParser;
 static bool myisspace(char c) @@isspace@@
 static bool myisalnum(char c) @@isalnum@@
@@ -106,7 +110,7 @@ __CPROVER_ensures((g_state0 == STRING && c != '"') ==> (self->_state == STRING |
 __CPROVER_ensures(((g_state0 == ESCAPE || g_state0 == UNICODECHAR) && self->_state != ESCAPE && self->_state != UNICODECHAR && self->_state != ERR) ==> self->_state == g_prev0)
 __CPROVER_assigns(*self, g_c0, g_c1, g_c2, g_cd, g_pend, g_buf, g_buflen, g_lists_pushed, g_lists_popped, g_props_pushed, g_values, g_pushback, g_int_digits, g_string_done, g_key_done)
 { XdlParser_step(self, c); }
-void vf_harness(void) { XdlParser* p; char c; vf_step(p, c); VF_CANARY(); }
+void vf_harness(void) { XdlParser* p; char c; char r0, r1, r2; g_rest[0] = r0; g_rest[1] = r1; g_rest[2] = r2; g_rest[3] = 0; s = g_rest; vf_step(p, c); __CPROVER_assert(s == g_rest, "the step consumes exactly the character it was given"); VF_CANARY(); }
 ''',
     entry='vf_step', unwind=10, timeout=600,
     desc='one step of XdlParser::parse for EVERY byte and EVERY parser configuration satisfying the representation invariant: context stack never underflows (any nesting, comments anywhere), '
